@@ -1,11 +1,11 @@
-import TenpyModel.C01.B2_Comb11
+import TenpyModel.C01.B2_Comb29
 /-!
 C01 part B2 — non-vacuity examples for `combine_places`: a rank-3 tensor over U(1)×Z₃ (duplicate sector, two stored
 blocks in unsorted order, `qtotal ≠ 0`), one spectator leg and one group of two legs fused by a sorted, bunched pipe
 (so the index map is not the row-major reshape) — the `_combine_legs_worker` branch.
 -/
-namespace TenpyModel.C01B2.Ex
-open TenpyModel.Core TenpyModel.C01B TenpyModel.C01B2
+namespace TenpyModel.C01B2.Comb.Ex
+open TenpyModel.Core TenpyModel.C01B TenpyModel.C01B2.Comb
 
 def legA : Leg := ⟨[1, 3], [0, 1, 3, 4], [[0, 1], [1, 2], [0, 1]], 1, false, false⟩
 def legB : Leg := ⟨[1, 3], [0, 2, 3], [[1, 0], [0, 1]], -1, false, true⟩
@@ -93,4 +93,72 @@ example : (t3.combineLegs [[.idx 2, .idx 0]] none none [some 1]).toOption.map
       (fun r => (r.qdata, r.shape, r.labels, r.entry [1, 7]))
     = some ([[0, 1]], [3, 16], [some "b", some "(?2.a)"], t3.entry [3, 1, 1]) := by decide
 
-end TenpyModel.C01B2.Ex
+/-! ### `split_legs ∘ combine_legs` (`split_combine`, `split_combine_none`, `split_combineLegs_id/_tr`) -/
+
+example : PipesOK2 t3 [[1, 2]] [pBC] := by
+  intro g hg
+  have : g = 0 := by simpa using hg
+  subst this
+  exact ⟨1, true, true, rfl⟩
+
+/-- no spectator leg of `t3` is a pipe -/
+example : ∀ x ∈ cNonComb t3.rank [[1, 2]], (t3.legs.getD x default).isPipe = false := by decide
+
+/-- standard form: splitting the new axis (worker branch: two stored blocks) restores dense form, legs, labels -/
+example : ((t3.combineStd [[1, 2]] [1] [pBC] ["a", "b", "?2"]).bind
+      (fun r => r.splitLegs (some [Ax.idx 1]))).toOption.map (fun a' => (a'.toDense, a'.lcs, a'.labels))
+    = some (t3.toDense, t3.lcs, t3.labels) := by decide
+
+example : ((t3.combineStd [[1, 2]] [1] [pBC] ["a", "b", "?2"]).bind
+      (fun r => r.splitLegs (some [Ax.idx 1]))).toOption.map (fun a' => a'.qdata)
+    = some [[0, 0, 1], [2, 0, 1]] := by decide
+
+example : ((t3.combineStd [[1, 2]] [1] [pBC] ["a", "b", "?2"]).bind (fun r => r.splitLegs none)).toOption.map
+      (fun a' => (a'.toDense, a'.lcs, a'.labels)) = some (t3.toDense, t3.lcs, t3.labels) := by decide
+
+/-- public calls; with the transposition `[1, 2, 0]` the round trip is that transposition -/
+example : ((t3.combineLegs [[.idx 1, .idx 2]] none none [some 1]).bind (fun r => r.splitLegs none)).toOption.map
+      (fun a' => (a'.toDense, a'.lcs, a'.labels)) = some (t3.toDense, t3.lcs, t3.labels) := by decide
+
+example : ((t3.combineLegs [[.idx 2, .idx 0]] none none [some 1]).bind (fun r => r.splitLegs none)).toOption.map
+      (fun a' => (a'.toDense, a'.lcs, a'.labels))
+    = some (t3.toDense.transpose [1, 2, 0], Arr.permuteList t3.lcs [1, 2, 0] default, [some "b", none, some "a"]) := by
+  decide
+
+/-- a tensor with a single stored block and single-block legs: the `stored_blocks == 1` shortcuts of both functions -/
+def t1 : Arr Int :=
+  { mods := [1, 3], legs := [.plain (Leg.fromTrivial 2 [1, 3] 1), .plain (Leg.fromTrivial 3 [1, 3] (-1))],
+    qtotal := [0, 0], labels := [some "x", some "y"], qdata := [[0, 0]], data := [⟨[2, 3], [1, 2, 3, 4, 5, 6]⟩],
+    qdataSorted := true }
+
+example : t1.WF ∧ StdForm t1.rank [[0, 1]] [0] := by decide
+example : ((t1.combineLegs [[.idx 0, .idx 1]] none none [some 1]).bind (fun r => r.splitLegs none)).toOption.map
+      (fun a' => (a'.toDense, a'.lcs, a'.labels)) = some (t1.toDense, t1.lcs, t1.labels) := by
+  decide
+
+/-! ### labels, well-formedness, bijectivity of the index map -/
+
+/-- the label hypotheses of `split_combine_labels` / `split_combineLegs_labels` -/
+example : ∀ c ∈ [[1, 2]], c ≠ [] ∧ ∀ s ∈ pick (cLabels t3) c "", Label.Piece s.toList := by
+  simp only [Label.Piece]
+  decide
+example : cLabels t3 = ["a", "b", "?2"] ∧ (cLabels t3).map mkLabel = t3.labels := by decide
+example : ∀ s, some s ∈ t3.labels → s.toList.head? ≠ some '?' := by
+  intro s hs
+  have : s = "a" ∨ s = "b" := by simpa [t3] using hs
+  rcases this with rfl | rfl <;> decide
+
+/-- the result of the round trip is well-formed (worker branch / one-block branch) -/
+example : ((t3.combineLegs [[.idx 1, .idx 2]] none none [some 1]).bind (fun r => r.splitLegs none)).toOption.map
+      (fun a' => decide a'.WF) = some true := by decide
+example : ((t1.combineLegs [[.idx 0, .idx 1]] none none [some 1]).bind (fun r => r.splitLegs none)).toOption.map
+      (fun a' => decide a'.WF) = some true := by decide
+example : (t3.combineLegs [[.idx 1, .idx 2]] none none [some 1]).toOption.map (fun r => decide r.WF) = some true := by
+  decide
+
+/-- `combIdx` is a bijection `[0,4)×[0,3)×[0,4) → [0,4)×[0,12)` (`combIdx_bijective`): 48 distinct images in range -/
+example : ((Dense.allIdx t3.shape).map (combIdx t3 [[1, 2]] [1] [pBC])).Nodup
+    ∧ ((Dense.allIdx t3.shape).map (combIdx t3 [[1, 2]] [1] [pBC])).all (fun i => Dense.inRange [4, 12] i) = true := by
+  decide
+
+end TenpyModel.C01B2.Comb.Ex
